@@ -91,6 +91,7 @@ Raw ==
              /\ E.ty = TypeOf(b)
              /\ E.len = NumKeys(b, v)
              /\ E.empty = (NumKeys(b, v) = UZero)
+             /\ E.as_bytes = Len(b) /\ E.to_vec = Len(b)
              /\ E.verify = VerifyWant(b))
     /\ l' = l + 1 /\ UNCHANGED <<phase, cursor, pending, nodes, crcT>>
 
